@@ -39,11 +39,11 @@ def real_safe(name):
 
 
 class Case:
-    __slots__ = ("cid", "entry", "eid", "args", "mode", "stubret", "pred", "nat", "why")
+    __slots__ = ("cid", "entry", "eid", "args", "mode", "stubret", "pred", "nat", "why", "spec")
 
     def __init__(self, cid, entry, eid, args, mode="s"):
         self.cid, self.entry, self.eid, self.args, self.mode = cid, entry, eid, args, mode
-        self.stubret, self.pred, self.nat, self.why = 7, None, None, ""
+        self.stubret, self.pred, self.nat, self.why, self.spec = 7, None, None, "", ""
 
 
 def assign_nullness(params, args):
@@ -79,7 +79,7 @@ def build_cases(ctx, tier, rng, only=None):
             args = ["g" if i in pidx else None for i in range(len(params))]
             for i, v in zip(sidx, tup):
                 args[i] = v
-            lines.append("run b%d 0 %d %s" % (k, eid, assign_nullness(params, args)))
+            lines.append("view b%d %d %s" % (k, eid, assign_nullness(params, args)))
         res = ctx.model_lines(lines, shards=1) if lines else {}
         valid = [tup for k, tup in enumerate(base_pool)
                  if "1" not in wc.parse_model_run(res["b%d" % k]).get("spec", "1")[1:-1]]
@@ -108,33 +108,18 @@ def build_cases(ctx, tier, rng, only=None):
 
 
 def predict(ctx, cases):
+    """the interpreter's prediction (white-box comparison only) and, separately, the table's view of
+    the world (which parameters must / may be refused): the native judgement uses only the latter"""
     lines = ["run %s 0 %d %s" % (c.cid, c.eid, assign_nullness(ctx.params(c.entry), c.args)) for c in cases]
     out = ctx.model_lines(lines)
+    vout = ctx.model_lines(["view %s %d %s" % (c.cid, c.eid, assign_nullness(ctx.params(c.entry), c.args)) for c in cases])
     for c in cases:
         c.pred = wc.parse_model_run(out[c.cid])
+        c.spec = wc.parse_model_run(vout[c.cid]).get("spec", "")
 
 
 def native_args(ctx, c):
-    """choose the kind of non-NULL pointer: PROT_NONE unless the model says the call is accepted and
-    the wrapper itself (a store through an out parameter) or a non-interposable internal function
-    will legitimately touch it"""
-    params = ctx.params(c.entry)
-    ev = c.pred.get("events", [])
-    local_call = any((not obs) for f, a, obs in wc.model_calls(ctx, c.entry, ev)) or any(e.startswith("E:") for e in ev)
-    stores = {int(e.split(":")[1][1:]) for e in ev if e.startswith("W:A")}
-    toks = []
-    for i, (p, a) in enumerate(zip(params, c.args)):
-        if p[1] != "CPtr":
-            toks.append("%x" % a)
-        elif a == "n":
-            toks.append("n")
-        elif local_call:
-            toks.append("s" if (i == 0 and c.entry in ("isal_rolling_hash2_reset", "isal_rolling_hash2_run")) else "v")
-        elif i in stores:
-            toks.append("v")
-        else:
-            toks.append(a if a in ("g", "v", "s") else "g")
-    return toks, local_call
+    return wc.spec_native_args(ctx, c)
 
 
 def run_native(ctx, cases):
@@ -148,9 +133,8 @@ def run_native(ctx, cases):
             if any(isinstance(a, int) and a > 4096 for a in c.args) and c.entry == "isal_rolling_hash2_run":
                 skipped += 1
                 continue
-        rq = ctx.tab[c.entry]["ret_q"]
-        callee_ptr = any(ctx.tab.get(ctx.byid.get(f, ""), {}).get("ret_q", "").endswith("*") for f, a, o in wc.model_calls(ctx, c.entry, c.pred.get("events", [])))
-        c.stubret = 0 if (callee_ptr or any(e.startswith("W:") for e in c.pred.get("events", []))) else 7
+        sp = ctx.spec[c.eid]
+        c.stubret = 0 if (sp["store"] is not None or sp["ret"] == "mapped") else 7
         lines.append("N %s %s %s - - - %x %s" % (c.cid, c.entry, c.mode, c.stubret, " ".join(toks)))
         keep.append(c)
     out = ctx.native_lines(lines)
@@ -166,23 +150,8 @@ def judge(ctx, cases):
             continue
         actual = c.nat["ptrs"].split(",") if c.nat["ptrs"] != "-" else []
         assign = " ".join("A%d=%s" % (i, v) for i, v in enumerate(actual))
-        calls = list(c.nat["calls"])
-        synth = False
-        stores = {int(e.split(":")[1][1:]) for e in c.pred.get("events", []) if e.startswith("W:A")}
-        # internal functions living in the wrapper's own object cannot be interposed: when the
-        # model predicts such a call and the native return value agrees, the call is taken as made
-        if c.nat.get("fault") == "0":
-            for f, a, obs in wc.model_calls(ctx, c.entry, c.pred.get("events", [])):
-                if not obs and f not in (1, 2):
-                    vals = [wc.resolve_arg(t, [int(x, 16) for x in actual]) for t in a]
-                    if all(v is not None for v in vals):
-                        calls.append("%d(%s)" % (f, ",".join("%x" % v for v in vals)))
-                        synth = True
-            if any(e.startswith("E:") for e in c.pred.get("events", [])) and c.nat.get("ret") == "0":
-                synth = True      # an inlined helper (e.g. _rolling_hash2_init) really ran
-        # a real (non-interposed) internal function returned its own value, not the stub's
-        sr = int(c.nat["ret"], 16) if (synth or c.mode == "r") else c.stubret
-        lines.append(wc.judge_line(c.cid, "16", c.eid, c.nat, sr, calls, assign, real=(c.mode == "r" or synth), stores=stores))
+        calls, stores, sr, real = wc.spec_judge_inputs(ctx, c)
+        lines.append(wc.judge_line(c.cid, "16", c.eid, c.nat, sr, calls, assign, real=real, stores=stores))
     out = ctx.model_lines(lines)
     return {k: v.split()[1] if len(v.split()) > 1 else "?" for k, v in out.items()}
 
@@ -194,10 +163,8 @@ def describe(c):
 
 def classify_l0(ctx, c):
     """signature of an L0 rejection"""
-    spec = c.pred.get("spec", "")
-    n = len(ctx.params(c.entry))
-    must = "1" in spec[1:1 + n]
-    may = "1" in spec[1 + n:1 + 2 * n]
+    pre, musts, mays, same = wc.spec_bits(ctx, c.eid, c.spec)
+    must, may = "1" in musts, "1" in mays
     ret = int(c.nat["ret"], 16) if "ret" in c.nat else -1
     if c.nat.get("fault") == "1":
         kind = "fault_offending" if (must or may) else "fault_in_domain"
@@ -278,14 +245,14 @@ def run(tier, replay=None):
         seen = set()
         extra = []
         for c in cases:
-            spec = c.pred.get("spec", "1")
+            spec = c.spec or "1"
             if c.mode == "s" and real_safe(c.entry) and "n" not in c.args and "1" not in spec[1:-1] and \
                     all((not isinstance(a, int)) or a <= 4096 for a in c.args):
                 key = (c.entry, tuple(c.args))
                 if key not in seen:
                     seen.add(key)
                     r = Case(c.cid + "r", c.entry, c.eid, [("v" if a == "g" else a) for a in c.args], "r")
-                    r.pred = c.pred
+                    r.pred, r.spec = c.pred, c.spec
                     extra.append(r)
         cases += extra
     ran, skipped = run_native(ctx, cases)
